@@ -9,6 +9,8 @@ package vh
 import (
 	"errors"
 	"fmt"
+	"github.com/semihalev/twig"
+	"io"
 	"strings"
 	"testing"
 
@@ -21,6 +23,9 @@ type C08Case struct {
 	Typ  string `json:"typ"` // int | str | bool
 	Pos  int    `json:"pos"`
 	Kw   int    `json:"kw,omitempty"` // whitespace written after tag keywords (index into kwSpaces)
+	// Debug: the engine runs with SetDebug(true) (log output discarded): values and the
+	// invocations of the spies must be what they are without it
+	Debug bool `json:"debug,omitempty"`
 }
 
 // whitespace admissible between a tag keyword and what follows it
@@ -147,7 +152,14 @@ func checkC08(c C08Case) error {
 		sp := NewSpies()
 		e := newEngine(tm)
 		sp.Install(e)
+		if c.Debug {
+			twig.SetDebugWriter(io.Discard)
+			e.SetDebug(true)
+		}
 		r := render(e, "main", c.Ctx.Go())
+		if c.Debug {
+			e.SetDebug(false)
+		}
 		spelling := "minimal"
 		if full {
 			spelling = "fully parenthesised"
@@ -207,6 +219,9 @@ func c08Classify(c C08Case) (bool, []string) {
 		}
 	})
 	classes = append(classes, "pos:"+c08PosNames[c.Pos], "type:"+c.Typ)
+	if c.Debug {
+		classes = append(classes, "engine-in-debug-mode")
+	}
 	if c.Kw != 0 && c.Pos >= 1 && c.Pos <= 5 {
 		classes = append(classes, "keyword-spacing-other-than-one-space")
 	}
@@ -214,7 +229,7 @@ func c08Classify(c C08Case) (bool, []string) {
 	return nt, classes
 }
 
-const c08Rule = "type-directed random expression trees (depth<=5) over ints, strings, booleans, lists, maps, attribute/index access, unary, all binary operators of the table, ?:, filters, functions and spies, each printed minimally and fully parenthesised with random inter-token whitespace and placed in one of 15 syntactic positions (the for sequence also as a filter chain on a null / undefined base, a conditional and a filtered list); containers of `in` include a 60-element list and range(-10, 49); non-trivial = >=2 binary operators of different precedence, or a unary/conditional operator next to a binary one, or a non-print position; distinct by (context, tree, position)"
+const c08Rule = "type-directed random expression trees (depth<=5) over ints, strings, booleans, lists, maps, attribute/index access, unary, all binary operators of the table, ?:, filters, functions and spies, each printed minimally and fully parenthesised with random inter-token whitespace and placed in one of 15 syntactic positions (the for sequence also as a filter chain on a null / undefined base, a conditional and a filtered list); containers of `in` include a 60-element list and range(-10, 49); variable names include pairs that collide under common string hashes (Aa/BB, x1/wP, AO/B0); one case in five runs with the engine in debug mode; non-trivial = >=2 binary operators of different precedence, or a unary/conditional operator next to a binary one, or a non-print position; distinct by (context, tree, position)"
 
 func TestC08Expr(t *testing.T) {
 	r := NewRec(t, "C08", c08Rule)
@@ -236,6 +251,7 @@ func TestC08Expr(t *testing.T) {
 		if rapid.IntRange(0, 2).Draw(rt, "kwspace") == 0 {
 			c.Kw = rapid.IntRange(1, len(kwSpaces)-1).Draw(rt, "kw")
 		}
+		c.Debug = rapid.IntRange(0, 4).Draw(rt, "debug") == 0
 		if !c08InDomain(c) {
 			r.Excl("value outside the modelled domain in this position (e.g. empty value under default())")
 			return
